@@ -710,6 +710,14 @@ def run(ctx):
             mret = m["ret"]
             if isinstance(mret, list) and name != "getitem":
                 mret = sorted(mret)
+            if (mret != ret and name == "change_offset" and isinstance(ret, list) and isinstance(mret, list)
+                    and any(w is None for w in oracle_relocate(rec["before"], op["old"], op["new"]))
+                    and [r[0] for r in ret] == [r[0] for r in mret]):
+                # entries outside the old offset (the property leaves their relocation unspecified) may land on one new location; which of
+                # them survives depends on the iteration order of the source set (a dict keeps the position of an overwritten key, the
+                # model's list re-appends it).  The model does not claim that order: same locations, colliding survivors not compared.
+                ctx.count("relocate_collision_survivor_unspecified")
+                break
             if mret != ret:
                 ctx.mismatch(where, f"{name}: implementation returns {ret!r}, the Lean model returns {mret!r}")
                 break
